@@ -23,7 +23,7 @@ import vlib                     # noqa: E402
 from c07_run import Input       # noqa: E402
 
 MODULES = ["Scan.tla", "Linear.tla", "SrcText.tla", "Total.tla", "Mutants.tla", "Directives.tla", "Stress.tla",
-           "TotalFile.tla", "TotalFile.cfg"]
+           "TotalFile.tla", "TotalFile.cfg", "Macros.tla", "Calls.tla"]
 FOAMLIB_ARGS = ["-I" + os.path.join(vlib.REPO, "aldor/aldor/lib/libfoamlib/al"),
                 "-Y" + os.path.join(vlib.REPO, "aldor/aldor/lib/libfoamlib/al")]
 _lock = threading.Lock()
